@@ -37,6 +37,8 @@ type crashOutcome struct {
 	warmupErr  []string
 	countOff   bool
 	staleRetry bool // the retry failed with the known C04 finding's signature
+	// newRootShape: some store the victim adds to was empty before (its commit creates the root)
+	newRootShape bool
 }
 
 // knownStale: the recorded C04 finding (the item tracker keeps pointers into a node's slot array; an add or
@@ -71,6 +73,11 @@ var knownCount = stats.Known("C08", "count-not-restored-after-crash")
 var knownRoot = stats.Known("C08", "partial-new-root-after-crash")
 
 func crashCase(h txh.History, k int, after bool, nowOffset int64, warmups int) (string, *crashOutcome, error) {
+	return crashCaseM(h, k, after, nowOffset, warmups, false)
+}
+
+// crashCaseM: maintenance = the restart process runs SOP's maintenance pass through the verif hook.
+func crashCaseM(h txh.History, k int, after bool, nowOffset int64, warmups int, maintenance bool) (string, *crashOutcome, error) {
 	dir, err := os.MkdirTemp("", "crash")
 	if err != nil {
 		return "", nil, fmt.Errorf("HARNESS-ERROR %w", err)
@@ -88,7 +95,12 @@ func crashCase(h txh.History, k int, after bool, nowOffset int64, warmups int) (
 		return "", nil, nil // the plan never fired (commit has fewer calls)
 	}
 	out := &crashOutcome{site: vr.CrashSite}
-	rr, err := txh.RunJob(txh.Job{Kind: "restart", Dir: dir, HashMod: h.HashMod, Stores: h.Stores, NowOffsetSec: nowOffset, Warmups: warmups, History: &h, Victim: victim})
+	for i := range h.Stores {
+		if len(vr.Pre[i].Items) == 0 && len(vr.Post[i].Items) > 0 {
+			out.newRootShape = true
+		}
+	}
+	rr, err := txh.RunJob(txh.Job{Kind: "restart", Dir: dir, HashMod: h.HashMod, Stores: h.Stores, NowOffsetSec: nowOffset, Warmups: warmups, History: &h, Victim: victim, Maintenance: maintenance})
 	if err != nil {
 		return "", nil, err
 	}
